@@ -217,26 +217,36 @@ func VerifH_C03_sequence_border() {
 }
 
 // H2: traversal with next while existing fields are cleared or re-assigned
-// (allowed by the manual): every key present at the start and not cleared
-// before being reached is visited exactly once; next never rejects the key it
-// just returned.
+// (allowed by the manual): every key present at the start is visited exactly
+// once; next never rejects the key it just returned.  The hash part holds 0-4
+// keys (so that it is exactly full for 1, 2 and 4), including the integer keys
+// 0 and 2^40; existing fields are re-assigned through the key returned by next
+// or through an equal key of another type (the float 2^40).
+var vhBigKey = int64(1) << 40
+
 func VerifH_C03_traversal_with_updates() {
-	n := verifChoose("n", 4) + 1 // 1..4 array entries
+	n := verifChoose("n", 4) // 0..3 array entries
 	t := NewTable()
 	for i := 1; i <= n; i++ {
 		t.Set(IntValue(int64(i)), IntValue(int64(10*i)))
 	}
-	hashKeys := verifChoose("hashkeys", 3) // 0..2 extra keys in the hash part
-	if hashKeys >= 1 {
-		t.Set(StringValue("x"), IntValue(1000))
+	// hash-part keys, chosen as a subset in a fixed order
+	var hk [5]Value
+	nh := 0
+	mask := verifChoose("hashmask", 32)
+	cands := [5]Value{StringValue("x"), FloatValue(0.5), IntValue(vhBigKey), IntValue(0), BoolValue(true)}
+	for b := 0; b < 5; b++ {
+		if mask&(1<<uint(b)) != 0 {
+			t.Set(cands[b], IntValue(int64(1000+b)))
+			hk[nh] = cands[b]
+			nh++
+		}
 	}
-	if hashKeys >= 2 {
-		t.Set(FloatValue(0.5), IntValue(2000))
-	}
-	total := n + hashKeys
-	var seenInt [6]bool
-	seenX, seenHalf := false, false
+	total := n + nh
+	var seenInt [5]bool
+	var seenH [5]bool
 	visited := 0
+	bigPresent := mask&4 != 0
 	k := NilValue
 	for step := 0; step <= total+1; step++ {
 		nk, v, ok := t.Next(k)
@@ -248,24 +258,42 @@ func VerifH_C03_traversal_with_updates() {
 			break
 		}
 		visited++
-		verifAssert(!v.IsNil(), "visited-key-has-a-value")
-		if i, isInt := nk.TryInt(); isInt {
-			verifAssert(i >= 1 && i <= int64(n) && !seenInt[i], "int-key-visited-once")
-			if i >= 1 && i <= int64(n) {
-				seenInt[i] = true
-			}
-		} else if s, isStr := nk.TryString(); isStr {
-			verifAssert(s == "x" && !seenX, "string-key-visited-once")
-			seenX = true
-		} else {
-			verifAssert(!seenHalf, "float-key-visited-once")
-			seenHalf = true
+		verifAssert(visited <= total, "traversal-terminates")
+		if visited > total {
+			return
 		}
-		switch verifChoose("update", 3) {
+		verifAssert(!v.IsNil(), "visited-key-has-a-value")
+		matched := false
+		if i, isInt := nk.TryInt(); isInt && i >= 1 && i <= int64(n) {
+			verifAssert(!seenInt[i], "array-key-visited-once")
+			seenInt[i] = true
+			matched = true
+		}
+		for h := 0; h < nh && !matched; h++ {
+			if vhKeyEq(vhNormKey(hk[h]), vhNormKey(nk)) {
+				verifAssert(!seenH[h], "hash-key-visited-once")
+				seenH[h] = true
+				matched = true
+			}
+		}
+		verifAssert(matched, "only-present-keys-visited")
+		upd := 0
+		if step < 3 {
+			upd = verifChoose("update", 4) // updates during the first three visits
+		}
+		switch upd {
 		case 1:
 			t.Set(nk, NilValue) // clear the field just visited
+			if i, isInt := nk.TryInt(); isInt && i == vhBigKey {
+				bigPresent = false
+			}
 		case 2:
-			t.Set(nk, IntValue(7)) // assign to an existing field
+			t.Set(nk, IntValue(7)) // assign to the field just visited
+		case 3:
+			// assign to an existing field through an equal key of another type
+			if bigPresent {
+				t.Set(FloatValue(float64(vhBigKey)), IntValue(8))
+			}
 		}
 		k = nk
 	}
